@@ -1052,12 +1052,28 @@ static void sc_rt(SB* s, Toks* k, int rewrite)
 	if (st == SBDF_OK)
 	{
 		sb_puts(s, " ");
+		long fired0 = vf_fired;
 		f_reset(g_f);
 		st = write_table(s, &b, g_f);
 		bytes = f_slurp(g_f, &n);
 		sb_puts(s, " bytes=");
 		sb_hexq(s, bytes, n);
 		free(bytes);
+		if (st != SBDF_OK && vf_fired != fired0)
+		{
+			/* C14: an allocation failed inside a writer; the objects built before are as they
+			   were, so the same calls now succeed and give the fault-free bytes */
+			SB t2;
+			memset(&t2, 0, sizeof t2);
+			f_reset(g_f);
+			st = write_table(&t2, &b, g_f);
+			bytes = f_slurp(g_f, &n);
+			sb_printf(s, " retry=%d:", st);
+			sb_hexq(s, bytes, n);
+			free(bytes);
+			free(t2.p);
+			st = -1;   /* the read-back part is skipped, as in the failed run */
+		}
 		built_free(&b);
 		if (st == SBDF_OK)
 		{
@@ -1173,6 +1189,24 @@ static void sc_radd(SB* s, Toks* k)
 		st = sbdf_ts_read(g_f, tm, 0, &ts);
 		sb_printf(s, " ts=%d", st);
 		if (st) ts = 0;
+		{
+			/* a new table-metadata object made from the pieces the reader returned */
+			sbdf_tablemetadata* t2 = 0;
+			int e = sbdf_tm_create(tm->table_metadata, &t2);
+			sb_printf(s, " cp=%d", e);
+			for (i = 0; !e && i < tm->no_columns; ++i) e = sbdf_tm_add(tm->column_metadata[i], t2);
+			if (t2)
+			{
+				sb_printf(s, ",%d:%d", e, t2->no_columns);
+				f_reset(g_w);
+				e = sbdf_tm_write(g_w, t2);
+				bytes = f_slurp(g_w, &n);
+				sb_printf(s, " cpw=%d:", e);
+				sb_hexq(s, bytes, n);
+				free(bytes);
+				sbdf_tm_destroy(t2);
+			}
+		}
 		sb_puts(s, " tmadd=");
 		for (i = 0; i < K; ++i)
 		{
